@@ -10,25 +10,41 @@ TRUSTED = [
 ]
 
 Q_STORY = dict(MaxStories=4, MaxSrc=3, MaxCarried=3)
-T_STORY = dict(MaxStories=5, MaxSrc=4, MaxCarried=3)
+T_STORY = dict(MaxStories=5, MaxSrc=4, MaxCarried=3, Layouts=["plain", "between", "trailing", "both", "nt1", "nt2", "blank"])
 Q_ITEM = dict(MaxItems=4, MaxSrc=3, MaxCarried=2)
 T_ITEM = dict(MaxItems=5, MaxSrc=4, MaxCarried=3)
 
 
-def fam(tier, story=None, item=None, other=None):
+def fam(tier, story=None, item=None, other=None, theorems=("story", "item", "other")):
+    """families of MC_merge to enumerate; `theorems`: for which of them TLC also checks the spec's own theorems in this
+    run (they cost ~60% of the generation time and are the same whichever property replays the transitions: C01 checks
+    them for the story family, C02 for the item family, C03 for the metadata family; thorough runs check them always)"""
     out = []
+    th = lambda f: tier == "thorough" or f in theorems
     if story:
-        out.append(("story", story, Q_STORY if tier == "quick" else T_STORY))
+        out.append(("story", story, Q_STORY if tier == "quick" else T_STORY, th("story")))
     if item:
-        out.append(("item", item, Q_ITEM if tier == "quick" else T_ITEM))
+        out.append(("item", item, Q_ITEM if tier == "quick" else T_ITEM, th("item")))
     if other:
-        out.append(("other", other, {}))
+        out.append(("other", other, {}, th("other")))
     return out
 
 
 def merge_property(families_fn, assumptions):
     def run(report, tier, seed):
         cov = pipeline.run_merge_check(report, families_fn(tier), seed, tier)
+        # binding C: every `ro += msg` the repository's own 196 tests perform, recorded by the tracer, judged by TLC
+        suite = pipeline.run_suite_trace(report, seed)
+        cov["suite_trace"] = {k: v for k, v in suite.items() if k != "samples"}
+        cov["traces_validated_against_impl"] += suite["traces_validated_against_impl"]
+        cov["states"] += suite["states"]
+        # beyond the exhaustive bound: seeded random transitions (up to 12 stories, 20 ids, lists up to 6), same TLC judge
+        from . import randomdrv
+        rnd = randomdrv.run(report, seed, 500 if tier == "quick" else 10000)
+        cov["random_beyond_bound"] = rnd
+        cov["traces_validated_against_impl"] += rnd["random_transitions"]
+        cov["states"] += rnd["states"]
+        cov["exhaustive"] = True
         cov["trusted_base"] = TRUSTED
         cov["checker_cmd"] = "tlc MC_merge.tla (theorems + export) ; replay into /repo ; tlc Trace_Merge.tla (judge)"
         return report.finish(cov, assumptions)
@@ -36,6 +52,10 @@ def merge_property(families_fn, assumptions):
 
 
 A_COMMON = [
+    "beyond the bound, 2 000 (quick) / 40 000 (thorough) seeded random transitions with up to 12 stories, 20 ids, lists up to 6 "
+    "are executed and judged by the same TLC trace spec (not exhaustive; `exhaustive: true` refers to the bounded families)",
+    "additionally every `ro += msg` performed by the repository's own test suite is recorded by the out-of-tree tracer "
+    "(pytest plugin harness/pytest_plugin.py) and judged by the same TLC trace spec",
     "exhaustive inside the bound: stories S1..Sn in canonical order (messages range over all id choices, so every "
     "relative position of sources and target occurs); content behind each token is sampled by gamma (one sample per "
     "transition, seeded by VERIF_SEED)",
@@ -44,15 +64,17 @@ A_COMMON = [
 
 def life_plans(tier):
     if tier == "quick":
-        return [dict(name="alpha", mode="alphabet", objs=[1], depth=3),
+        return [dict(name="alpha2", mode="alphabet", objs=[1], depth=2),
+                dict(name="alpha3", mode="alphabet", objs=[1], depth=3, cap=1500),
                 dict(name="random", mode="random", objs=[1, 2], depth=8, num=40, cap=400)]
-    return [dict(name="alpha", mode="alphabet", objs=[1], depth=4),
+    return [dict(name="alpha3", mode="alphabet", objs=[1], depth=3),
+            dict(name="alpha4", mode="alphabet", objs=[1], depth=4, cap=20000),
             dict(name="random", mode="random", objs=[1, 2], depth=12, num=400, cap=5000)]
 
 
 def life_property(assumptions):
     def run(report, tier, seed):
-        cov = pipeline.run_life_check(report, life_plans(tier), seed, tier)
+        cov = pipeline.run_life_check(report, life_plans(tier), seed, tier, expose=(report.prop == "C13"))
         cov["trusted_base"] = TRUSTED
         cov["checker_cmd"] = "tlc MosLife.tla (exhaustive alphabet histories + -simulate) ; replay on live objects ; tlc Trace_Merge.tla"
         return report.finish(cov, assumptions)
@@ -60,7 +82,8 @@ def life_property(assumptions):
 
 
 A_LIFE = [
-    "histories: every sequence up to the stated depth over a 14-message state-dependent alphabet (exhaustive), plus "
+    "histories: every sequence of length 2 (quick) / 3 (thorough) over an 18-message state-dependent alphabet (exhaustive), a "
+    "seeded sample of 1500 / 20000 of the sequences one step longer, plus "
     "tlc -simulate behaviours drawing any message of any class, with reload / re-merge steps, on two live objects",
     "judged step by step by TLC with resynchronisation on the implementation's post-state",
 ]
@@ -129,7 +152,8 @@ def obs_property(families, life=True):
 
 def c20(report, tier, seed):
     from . import expose
-    cov = expose.run(report, tier, seed)
+    cov = combine([("messages", expose.run(report, tier, seed)),
+                   ("life", pipeline.run_life_check(report, life_plans(tier), seed, tier, expose=True))])
     cov["trusted_base"] = TRUSTED + ["harness/expose.py (table of documented accessors per class)"]
     return report.finish(cov, [
         "every distinct message of the bounded generators of MC_merge (all 24 classes; targets in {id, unknown id, blank, "
@@ -166,7 +190,7 @@ def c18(report, tier, seed):
 
 def c12(report, tier, seed):
     from . import classify, collection
-    covs = [("merge", pipeline.run_merge_check(report, fam(tier, story=STORY, item=ITEM, other=OTHER), seed, tier)),
+    covs = [("merge", pipeline.run_merge_check(report, fam(tier, story=STORY, item=ITEM, other=OTHER, theorems=()), seed, tier)),
             ("classify", classify.run(report, tier, seed, ("classify_contained",))),
             ("collection", collection.run(report, tier, seed, ("coll_contained",), step_props=("C12",)))]
     cov = combine(covs)
@@ -191,21 +215,21 @@ REGISTRY = {
         "multiset preservation of moves/swaps judged for every input"]),
     "C02": merge_property(lambda t: fam(t, item=ITEM), A_COMMON + [
         "compared through the item-ID sequence of the addressed story; a second story with the same item ids is always present"]),
-    "C03": merge_property(lambda t: fam(t, story=STORY, item=ITEM, other=OTHER), A_COMMON + [
+    "C03": merge_property(lambda t: fam(t, story=STORY, item=ITEM, other=OTHER, theorems=("other",)), A_COMMON + [
         "compared through the sequence of (tag,id,content digest) of every node the message does not operate on, at both levels"]),
     "C04": merge_property(lambda t: fam(t, story=["StorySend", "StoryAppend", "StoryInsert", "StoryReplace", "EAStoryReplace", "EAStoryInsert"],
                                         item=["ItemInsert", "ItemReplace", "EAItemReplace", "EAItemInsert"],
-                                        other=["MetaDataReplace", "RunningOrderReplace"]), A_COMMON + [
+                                        other=["MetaDataReplace", "RunningOrderReplace"], theorems=()), A_COMMON + [
         "structure (how many carried, storyBody position, body composition) enumerated by TLC; the content behind each token "
         "(depth, attributes, mixed text, special characters) sampled by gamma and compared by digest"]),
-    "C05": merge_property(lambda t: fam(t, story=STORY, item=ITEM), A_COMMON + [
+    "C05": merge_property(lambda t: fam(t, story=STORY, item=ITEM, theorems=()), A_COMMON + [
         "a step whose status is not ok must leave the abstract state AND str(ro) unchanged"]),
-    "C06": merge_property(lambda t: fam(t, story=STORY, item=ITEM), A_COMMON + [
+    "C06": merge_property(lambda t: fam(t, story=STORY, item=ITEM, theorems=()), A_COMMON + [
         "warnings = MosRoMgrWarning subclasses recorded with simplefilter('always')"]),
     "C08": c08,
     "C09": coll_property(("coll_steps", "coll_fold"), step_props=("C09",)),
     "C10": coll_property(("coll_order", "coll_fold")),
-    "C11": coll_property(("coll_accept",)),
+    "C11": coll_property(("coll_accept", "coll_order")),
     "C07": c07,
     "C13": life_property(A_LIFE),
     "C14": life_property(A_LIFE),
